@@ -128,6 +128,9 @@ def work(shard, tier):
         nums = C.rich_corpus(name, 5 if tier == 'quick' else 150, rng, n_synth=8 if tier == 'quick' else 250)
         if not nums:
             continue
+        if hasattr(mod, 'split'):
+            b = C.synth_boundaries(name, rng, k=1 if tier == 'quick' else 4)
+            nums = nums + rng.sample(b, min(len(b), 60 if tier == 'quick' else 600))
         fsets = format_optsets(name, mod, nums[0])
         for v0 in nums:
             variants = list(gen.decorations(v0, name, tier, rng))
